@@ -116,3 +116,23 @@ REGISTRY["C05"] = {
         {"name": "TestC05Nested", "env": {"VERIF_UNRESTRICTED": "1"}, "checks": {"quick": 60, "thorough": 1000}, "shards": {"quick": 4, "thorough": 8}},
     ],
 }
+
+REGISTRY["C12"] = {
+    "pkg": "props/c12",
+    "level": "exploration",
+    "level_text": ("Metamorphic + model: every drawn C01-style program P is run twice under the same answer schedule - as is, and as P' with 1..3 rapid-chosen "
+                   "blocks wrapped in 1..3 nested embedded sub-processes (inside parallel/inclusive branches too). Each run is in lock-step with the token "
+                   "game (so the first request after the sub-process appears only after the last inner answer, exactly once; one ProcessLandMarkTrace per "
+                   "activation; the enclosing instance completes) and the two engine runs must request the same logical tasks at every step and end with the "
+                   "same variables and completion status."),
+    "level_note": LOCKSTEP_TRUST + " Blocks that contain an early end event are not wrapped (an end event inside a sub-process ends only the inner token, so the wrapped program is not equivalent by BPMN semantics).",
+    "technique": "rapid property test: metamorphic relation (wrapped vs inlined program under the same schedule) plus lock-step model conformance",
+    "rule": ("Distinct = (program, wrapped block indices and nesting levels, language, data, plan, schedule). Non-trivial = at least one wrapped block contains a task. "
+             "Classes: wrapInsideFork, depth>=2, wraps>=2, wrapEnteredRepeatedly (unrestricted campaign only: known finding C12-F3)."),
+    "assumptions": ["a sub-process is activated at most once per instance in the main campaign (finding C12-F3, constructed around)"],
+    "tests": [
+        {"name": "TestC12Metamorphic", "checks": {"quick": 80, "thorough": 2500}, "shards": {"quick": 16, "thorough": 32}, "gomaxprocs": [4, 1, 2, 16]},
+        {"name": "TestC12Metamorphic", "label": "TestC12Metamorphic-unrestricted", "env": {"VERIF_UNRESTRICTED": "1"},
+         "checks": {"quick": 60, "thorough": 1000}, "shards": {"quick": 4, "thorough": 8}},
+    ],
+}
